@@ -500,7 +500,27 @@ class ResultQuantifier(CanBehaveLikeAVariable[T], ABC):
         """
         SymbolGraph().remove_dead_instances()
         self._reset_conclusion_deduplication_()
+        self._refresh_domains_taken_from_the_symbol_graph_()
         yield from map(self._process_result_, self._evaluate__())
+
+    def _refresh_domains_taken_from_the_symbol_graph_(self):
+        """
+        A variable without a given domain ranges over the instances of its type that exist when the query is
+        evaluated, not over the ones that existed when it was evaluated for the first time.
+        """
+        variables = [
+            variable
+            for selected_or_variable in self._all_variable_instances_
+            for variable in selected_or_variable._all_variable_instances_
+        ]
+        for variable in variables:
+            # not getattr: variables turn unknown attribute names into symbolic attributes
+            domain_source = vars(variable).get("_domain_source_")
+            if isinstance(domain_source, From) and domain_source.from_symbol_graph:
+                variable._domain_ = HashedIterable()
+                variable._domain_.set_iterable(
+                    SymbolGraph().get_instances_of_type(variable._type_)
+                )
 
     def _reset_conclusion_deduplication_(self):
         """
@@ -918,6 +938,11 @@ class From:
     domain: Any
     """
     The domain to use for the symbolic variable.
+    """
+    from_symbol_graph: bool = False
+    """
+    Whether the domain is the instances of the variable type that the symbol graph knows. Such a domain is looked up
+    again at every evaluation.
     """
 
 
